@@ -191,6 +191,15 @@ func genC05(tier string, seed uint64, emit func(string)) {
 	for _, cmd := range []string{"INCR", "ZREVRANGE"} {
 		emit(fmt.Sprintf("panicw %d %s", 1+r.Intn(2), cmd))
 	}
+	// what the handler returned is what the client receives, on the connection the request arrived on, also while
+	// other connections are being answered: 2..6 connections with large replies read slowly
+	nc4 := 4
+	if tier == "thorough" {
+		nc4 = 60
+	}
+	for i := 0; i < nc4; i++ {
+		genConc4(r, emit)
+	}
 	// wide requests: list arguments around the sizes of internal buffers and tables
 	for _, n := range []int{255, 256, 257, 1023, 1024, 1025, 5000} {
 		for _, cmd := range []string{"DEL", "EXISTS", "RPUSH", "LPUSH", "SADD", "SREM", "HDEL", "ZREM"} {
@@ -570,6 +579,32 @@ func genC03(tier string, seed uint64, emit func(string)) {
 		p := &pipeline{reqs: [][]byte{requestBytes(argv, nil), reqS("PING"), reqS("ECHO", "hi")}, quit: -1}
 		l0, l1 := len(p.reqs[0]), len(p.reqs[0])+len(p.reqs[1])
 		emit(serveLine("blk", [][]byte{p.bytes()}, "r a6 b:61 b:31 b:62 b:32 b:63 b:33", floatTable(argv), fmt.Sprintf("served 3 ends %d %d %d", l0, l1, len(p.bytes()))))
+	}
+	// the empty string in every argument position of every command (a key, a value, a number, a score bound, an option
+	// word, a pattern): answered like any other request, the connection stays usable
+	for _, cmd := range append(append(append([]string{}, simpleForms...), compositeForms...), systemForms...) {
+		for round := 0; round < 2; round++ {
+			t := genRequest(r, cmd)
+			if t == nil {
+				continue
+			}
+			base := t.argv()
+			for pos := 1; pos <= len(base); pos++ {
+				argv := make([][]byte, len(base))
+				copy(argv, base)
+				if pos == len(base) {
+					argv = append(argv, []byte{}) // one more, empty, argument
+				} else {
+					argv[pos] = []byte{}
+				}
+				if strings.EqualFold(string(argv[0]), "QUIT") {
+					continue
+				}
+				p := &pipeline{reqs: [][]byte{requestBytes(argv, nil), reqS("PING"), reqS("ECHO", "hi")}, quit: -1}
+				l0, l1 := len(p.reqs[0]), len(p.reqs[0])+len(p.reqs[1])
+				emit(serveLine("blk", [][]byte{p.bytes()}, "r b:76 ; r a2 b:61 b:31", floatTable(argv), fmt.Sprintf("served 3 ends %d %d %d", l0, l1, len(p.bytes()))))
+			}
+		}
 	}
 	for i := 0; i < n; i++ {
 		p := genPipeline(r, 12, false)
